@@ -39,6 +39,7 @@ type VC struct {
 	allocN   int
 	Inlined  map[string]bool // functions inlined (reported in evidence)
 	Modular  map[string]bool // callee contracts assumed
+	ModularPosts map[string]map[string]bool // callee key -> labels of the ensures clauses assumed at some call site
 	Extern   map[string]bool // external/stdlib functions with built-in contracts
 	Unsup    []string
 	DefInst  []string         // instantiated defining equations (assume_def)
